@@ -465,12 +465,36 @@ func runStack(in *stackIn) (hx.Case, error) {
 	}
 	evs := make([]string, len(o.Events))
 	cnt := map[string]int{}
+	// lookups that arrived at a TLB while another lookup of the same (PID, page) was pending there
+	type pk struct {
+		b        int
+		pid, pg  uint64
+	}
+	pendKey := map[pk]int{}
+	idKey := map[[2]uint64]pk{}
+	coalescedLookups := 0
 	for i, e := range o.Events {
 		evs[i] = e.coq()
 		cnt[e.K]++
+		switch e.K {
+		case "req":
+			if e.B < nTLB {
+				kk := pk{e.B, e.PID, e.VAddr / psize}
+				if pendKey[kk] > 0 {
+					coalescedLookups++
+				}
+				pendKey[kk]++
+				idKey[[2]uint64{uint64(e.B), e.ID}] = kk
+			}
+		case "rsp":
+			if kk, ok := idKey[[2]uint64{uint64(e.B), e.ID}]; ok {
+				pendKey[kk]--
+				delete(idKey, [2]uint64{uint64(e.B), e.ID})
+			}
+		}
 	}
 	c := hx.Case{Obs: o}
-	c.Coq = hx.App("StackCase", hx.N(k), hx.L(evs), hx.B(o.Problem == ""))
+	c.Coq = hx.App("StackCase", hx.N(k), hx.N(uint64(nTLB)), hx.L(evs), hx.B(o.Problem == ""))
 	c.Tags = []string{"kind:stack", fmt.Sprintf("k:%d", k), fmt.Sprintf("tlbs:%d", nTLB)}
 	if in.MMUCache {
 		c.Tags = append(c.Tags, "mmucache")
@@ -482,6 +506,12 @@ func runStack(in *stackIn) (hx.Case, error) {
 	}
 	if cnt["inv"] > 0 {
 		c.Tags = append(c.Tags, "invalidations")
+	}
+	if coalescedLookups > 0 {
+		c.Tags = append(c.Tags, "coalesced-lookups")
+	}
+	if coalescedLookups >= 2 && cnt["inv"] > 0 {
+		c.Tags = append(c.Tags, "coalesced>=3+invalidation")
 	}
 	c.Nontrivial = cnt["acc"] >= 4 && cnt["rsp"] >= 4 && cnt["pt"] >= 2
 	return c, nil
